@@ -547,10 +547,10 @@ namespace c07
       // the reported initial defect is the true one
       chk(c, fabsl(LD(r.d0) - d0_true) <= 1e-12L * std::max(d0_true, nb) + 1e-300L, "solvers.def_initial-untrue " + sn, why);
       // the reported final defect is the true residual of the returned iterate
-      // (tol_rel = 0 with status max_iter: the solver was forced to iterate far beyond convergence; the recursively updated defect of
+      // (tol_rel = 0 with status max_iter / diverged: the solver was forced to iterate far beyond convergence; the recursively updated defect of
       //  the short-recurrence methods then drifts away from b-Ax. The status claims nothing there; counted, not reported.)
-      if(xfinite && lim.tol_rel == 0.0 && r.st == Status::max_iter)
-      { if(!(std::isfinite(r.d1) && fabsl(LD(r.d1) - d_true) <= 1e-6L * d0_true + round)) c.count("tol_rel=0: recursive defect drifted before max_iter"); }
+      if(xfinite && lim.tol_rel == 0.0 && (r.st == Status::max_iter || r.st == Status::diverged))
+      { if(!(std::isfinite(r.d1) && fabsl(LD(r.d1) - d_true) <= 1e-6L * d0_true + round)) c.count("tol_rel=0: recursive defect drifted before max_iter/diverged"); }
       else if(xfinite && r.st != Status::aborted && !skip_active)
         chk(c, std::isfinite(r.d1) && fabsl(LD(r.d1) - d_true) <= 1e-6L * d0_true + round, "solvers.def_final-untrue " + sv,
           [&]{ char q[80]; snprintf(q, sizeof q, " | true residual %.6Lg", d_true); return why() + q; });
